@@ -112,7 +112,8 @@ Fillers == <<
    Atom(Alt(<<La, Cat(<<La, Lb>>)>>)), Cat(<<Opt(Grp(201, La)), Lb>>), Star(Cat(<<La, Opt(Lb)>>)),
    Alt(<<Cat(<<La, Lb>>), Cat(<<La, Lb, Lc>>)>>), NClass(<<"a">>), Cat(<<Lb, Star(NClass(<<"a">>))>>),
    Look(La), NLook(La), LookB(La), Rep(Grp(201, Opt(La)), 2, 2, TRUE), Keep, Cat(<<La, Keep, Lb>>),
-   Alt(<<Grp(201, La), Grp(202, Lb)>>), Rep(Cat(<<La, Lb>>), 0, 1, TRUE)
+   Alt(<<Grp(201, La), Grp(202, Lb)>>), Rep(Cat(<<La, Lb>>), 0, 1, TRUE),
+   Rep(La, 1, 2, FALSE), Rep(Cat(<<La, Look(AnyC)>>), 1, 2, FALSE), Rep(Alt(<<La, Lb>>), 0, 2, FALSE), Opt(Plus(La)), Opt(Star(Cat(<<La, Lb>>)))
 >>
 
 NContexts == 36
@@ -198,15 +199,17 @@ CondFillers == <<
    Cond(La, Lb, Cond(Lb, Lc, Empty)), Cond(LookB(La), Lb, Lc), Cond(Grp(201, La), Bref(201), Lb),
    \* branches that can match in several ways: what follows must be able to make them give back / try the next way
    Cond(La, Star(Lb), Lc), Cond(La, Alt(<<Lb, Cat(<<Lb, Lc>>)>>), Lc), Cond(La, Lc, Star(Lb)), Cond(Look(La), Star(AnyC), Lb),
-   Cond(La, Rep(Lb, 0, 1, TRUE), Lc), Cond(Lc, Lc, Alt(<<La, Cat(<<La, Lb>>)>>))
+   Cond(La, Rep(Lb, 0, 1, TRUE), Lc), Cond(Lc, Lc, Alt(<<La, Cat(<<La, Lb>>)>>)),
+   \* conditions that fail at once (false path taken while alternatives of the context are still alive)
+   Cond(Lc, Lc, Empty), Cond(Lc, Lb, La), Cond(NLook(Empty), La, Empty)
 >>
 \* fillers that test group 101, which the context opens (optionally) to the left
 CondFillersG == <<
    Cond(Bex(101), La, Lb), Bex(101), Cond(Bex(101), Empty, Lb), Cond(Bex(101), Lb, Empty),
    Cond(Bex(101), Cond(Lb, Lc, Empty), La), Cond(Cond(Bex(101), La, Empty), Lb, Lc), Cond(Bex(101), Bref(101), Lc),
-   Cond(Bex(101), Alt(<<Lb, Cat(<<Lb, Lc>>)>>), Lc), Cond(Bex(101), Lc, Star(Lb)), Cond(Bex(101), Star(Lb), Lc)
+   Cond(Bex(101), Alt(<<Lb, Cat(<<Lb, Lc>>)>>), Lc), Cond(Bex(101), Lc, Star(Lb)), Cond(Bex(101), Star(Lb), Lc), Cond(Bex(101), Lc, Empty)
 >>
-NCondContexts == 17
+NCondContexts == 20
 CondCtx(i, H) ==
    CASE i = 1  -> H
      [] i = 2  -> Cat(<<H, La>>)
@@ -225,6 +228,11 @@ CondCtx(i, H) ==
      [] i = 15 -> Cat(<<H, Lb>>)
      [] i = 16 -> Cat(<<H, Lc, Asrt("eol")>>)
      [] i = 17 -> Cat(<<Grp(102, H), Lb, Lc>>)
+     \* a conditional inside a (hard, hence atomic) look-around, after an alternation that is still alive; what follows the look-around
+     \* depends on which alternative it committed to
+     [] i = 18 -> Cat(<<Look(Cat(<<Grp(102, Alt(<<La, Cat(<<La, Lb>>)>>)), H>>)), Bref(102), Asrt("eol")>>)
+     [] i = 19 -> Cat(<<Atom(Cat(<<Grp(102, Alt(<<La, Cat(<<La, Lb>>)>>)), H>>)), Bref(102)>>)
+     [] i = 20 -> Cat(<<LookB(Cat(<<Grp(102, Alt(<<La, Lb>>)), H>>)), Bref(102)>>)
 CondCtxFillPats ==
    LET S1 == { CondCtx(i, CondFillers[j]) : i \in 1..NCondContexts, j \in 1..Len(CondFillers) }
        S2 == { Cat(<<Opt(Grp(101, La)), CondCtx(i, CondFillersG[j])>>) : i \in 1..NCondContexts, j \in 1..Len(CondFillersG) }
@@ -233,7 +241,7 @@ CondCtxFillPats ==
    IN { LET r == Renumber(e) IN [ast |-> r, ng |-> Len(GroupOrder(e))] : e \in W }
 
 Quants8 == {<<0, -1, TRUE>>, <<0, -1, FALSE>>, <<1, -1, TRUE>>, <<0, 1, TRUE>>, <<0, 1, FALSE>>,
-            <<1, 2, TRUE>>, <<2, 2, TRUE>>, <<2, -1, FALSE>>}
+            <<1, 2, TRUE>>, <<2, 2, TRUE>>, <<2, -1, FALSE>>, <<1, 2, FALSE>>}      \* incl. a lazy BOUNDED repeat (own VM instruction RepeatNg)
 Quants4 == {<<0, -1, TRUE>>, <<1, -1, FALSE>>, <<0, 1, TRUE>>, <<1, 2, TRUE>>}
 
 \* C01/C02/C03 space: every construct of C01's statement; references only to groups closed earlier
